@@ -509,6 +509,11 @@ pub fn cli_in_process(args: &[&str], stdin: &str) -> String {
     }
 }
 
+/// alias: the command line in-process with a rules text on stdin
+pub fn cli_in_process_stdin(args: &[&str], stdin: &str) -> String {
+    cli_in_process(args, stdin)
+}
+
 /// `parse-tree --print-json` output as text (locations included), or an error / panic marker
 pub fn parse_tree_text(rules: &str) -> String {
     use clap::Parser;
